@@ -425,10 +425,21 @@ fn roundtrip_collect<T: Pixel>(c: &Cfg, px: &[[u16; 3]], tab: &mut BTreeSet<(u8,
     let px = &px[..w * h];
     // plane layouts rotate with the batch: Plane::new tight, tightly packed luma (Plane::from_slice) with padded chroma,
     // differently padded planes
-    let yuv: Yuv<T> = match (px.len() + usize::from(px[0][1])) % 3 {
-        0 => yuv444::<T>(px, w, h, c).expect("ctor"),
-        1 => Yuv::new(crate::frames::frame_packed_luma::<T>(px, w, h, 0, 0, [(0, 0), (0, 0), (16, 0)]), c.yuv_config()).expect("ctor"),
-        _ => crate::frames::yuv444_padded::<T>(px, w, h, c, [(3, 0), (0, 2), (33, 1)]).expect("ctor"),
+    let built = crate::util::guard(|| match (px.len() + usize::from(px[0][1])) % 3 {
+        0 => yuv444::<T>(px, w, h, c),
+        1 => Yuv::new(crate::frames::frame_packed_luma::<T>(px, w, h, 0, 0, [(0, 0), (0, 0), (16, 0)]), c.yuv_config()),
+        _ => crate::frames::yuv444_padded::<T>(px, w, h, c, [(3, 0), (0, 2), (33, 1)]),
+    });
+    let yuv: Yuv<T> = match built {
+        Ok(Ok(y)) => y,
+        Ok(Err(e)) => {
+            bad.push(format!("ctor:{}", crate::frames::err_name_yuv(e)));
+            return;
+        }
+        Err(p) => {
+            bad.push(format!("ctor:{p}"));
+            return;
+        }
     };
     let rgb = match crate::util::guard(|| Rgb::try_from(&yuv)) {
         Ok(Ok(r)) => r,
